@@ -103,4 +103,160 @@ Proof.
   destruct HI as (Hlen & _ & _ & Hrows). cbn [fst] in *. split; auto. intros i Hi. apply Hrows. lia.
 Qed.
 
+(* ---------------------------------------------------------------- the forward phase *)
+(* the exchange partner recorded for stage k (index holds it 1-based), the window bound of stage k *)
+Definition fpiv (index : list nat) (k : nat) : nat := nth k index 0 - 1.
+Definition fwin (n m1 k : nat) : nat := Nat.min (k + 1 + m1) n.
+
+(* which entry of the right-hand side stands at position i before stage k *)
+Fixpoint fperm (index : list nat) (k : nat) (i : nat) : nat :=
+  match k with
+  | 0 => i
+  | S k' => fperm index k' (swp k' (fpiv index k') i)
+  end.
+
+(* the (multiplier, stage) pairs applied so far to the entry standing at position i before stage k *)
+Fixpoint fhist (n m1 : nat) (al : matrix) (index : list nat) (k : nat) (i : nat) : list (T * nat) :=
+  match k with
+  | 0 => []
+  | S k' =>
+      let h := fhist n m1 al index k' (swp k' (fpiv index k') i) in
+      if (k' <? i) && (i <? fwin n m1 k') then h ++ [(mat_at al m1 k' (i - k' - 1), k')] else h
+  end.
+
+Definition fterms (h : list (T * nat)) (y : list T) : list (T * T) :=
+  map (fun p => (fst p, nth (snd p) y zero)) h.
+
+Lemma fterms_ext h y y' : (forall p, In p h -> nth (snd p) y' zero = nth (snd p) y zero) ->
+  fterms h y' = fterms h y.
+Proof. intros H. unfold fterms. apply map_ext_in. intros p Hp. now rewrite H. Qed.
+
+Lemma fhist_tags n m1 al index k i p : In p (fhist n m1 al index k i) -> snd p < k.
+Proof.
+  revert i. induction k as [|k IH]; intros i H; cbn [fhist] in H; [contradiction|].
+  destruct ((k <? i) && (i <? fwin n m1 k)).
+  - apply in_app_or in H as [H|[<-|[]]]; [apply IH in H; lia|cbn; lia].
+  - apply IH in H; lia.
+Qed.
+
+Lemma fhist_length_le n m1 al index k i : length (fhist n m1 al index k i) <= k.
+Proof.
+  revert i. induction k as [|k IH]; intros i; cbn [fhist]; [cbn; lia|].
+  specialize (IH (swp k (fpiv index k) i)).
+  destruct ((k <? i) && (i <? fwin n m1 k)); [rewrite app_length; cbn; lia|lia].
+Qed.
+
+Theorem band_fwd_trace (al : matrix) (index : list nat) (n m1 : nat) (b y : list T) (lf : nat) :
+  cols al = m1 -> m1 <= n -> length b = n ->
+  (forall k, k < n -> k + 1 <= nth k index 0) ->
+  for_ 0 n (fwd_step n al index) (b, m1) = Ok (y, lf) ->
+  length y = n /\
+  forall r, nth r y zero = sfold (fterms (fhist n m1 al index n r) y) (nth (fperm index n r) b zero).
+Proof.
+  intros Hc Hm Lb Hix E. unfold for_ in E. rewrite Nat.sub_0_r in E.
+  pose (I := fun k (s : list T * nat) =>
+    snd s = Nat.min (k + m1) n /\ length (fst s) = n /\
+    forall i, nth i (fst s) zero
+              = sfold (fterms (fhist n m1 al index k i) (fst s)) (nth (fperm index k i) b zero)).
+  assert (HI : I (0 + n) (y, lf)).
+  { apply (for_from_inv_partial I n 0 (fwd_step n al index) (b, m1)); auto.
+    - unfold I; cbn [fst snd Nat.add]. split; [lia|]. split; [auto|]. intros; reflexivity.
+    - intros k [v l] [v1 l1] Hk (Hl & Lv & Hv) E1. cbn [fst snd] in *.
+      pose proof (Hix k ltac:(lia)) as Hixk.
+      assert (Hp : nth k index 0 = fpiv index k + 1) by (unfold fpiv; lia).
+      assert (Hpk : k <= fpiv index k) by (unfold fpiv; lia).
+      set (p := fpiv index k) in *.
+      assert (Hln : lnext n l <= k + 1 + m1) by (subst l; rewrite lnext_min by auto; lia).
+      destruct (fwd_step_Ok_inv n m1 k al index v v1 l l1 p Hc Hp Hln E1) as (Hl1 & Lv1 & Hv1).
+      subst l. rewrite lnext_min in Hl1 by auto.
+      unfold I; cbn [fst snd]. split; [rewrite Hl1; f_equal; lia|]. split; [congruence|].
+      assert (Hold : forall j, j < k -> nth j v1 zero = nth j v zero).
+      { intros j Hj. rewrite Hv1. replace (k <? j) with false by (symmetry; apply Nat.ltb_ge; lia). cbn [andb].
+        unfold swp. destruct (Nat.eqb_spec j k); [lia|]. destruct (Nat.eqb_spec j p); [lia|]. reflexivity. }
+      assert (Hk1 : nth k v1 zero = nth (swp k p k) v zero).
+      { rewrite Hv1. rewrite Nat.ltb_irrefl. reflexivity. }
+      intros i. rewrite Hv1. cbn [fhist fperm]. fold p. rewrite Hl1. fold (fwin n m1 k).
+      set (h := fhist n m1 al index k (swp k p i)).
+      assert (Eh : fterms h v1 = fterms h v).
+      { apply fterms_ext. intros q Hq. apply Hold. apply fhist_tags in Hq. exact Hq. }
+      destruct ((k <? i) && (i <? fwin n m1 k)).
+      + unfold fterms. rewrite map_app, sfold_app. fold (fterms h v1). rewrite Eh.
+        cbn [map sfold fold_left fst snd]. unfold h. rewrite <- Hv. rewrite Hk1. reflexivity.
+      + rewrite Eh. apply Hv. }
+  destruct HI as (_ & Ly & Hrows). cbn [fst Nat.add] in *. split; [exact Ly|exact Hrows].
+Qed.
+
+(* the entry that ends at position r was settled by stage r: its history has at most r pairs, all of earlier stages *)
+Lemma fhist_settled n m1 al index r k :
+  (forall k, k < n -> k + 1 <= nth k index 0) -> r < k -> k <= n ->
+  fhist n m1 al index k r = fhist n m1 al index (S r) r.
+Proof.
+  intros Hix Hr. induction k as [|k IH]; intros Hk; [lia|].
+  destruct (Nat.eq_dec k r) as [->|Ne]; [reflexivity|].
+  rewrite <- IH by lia. cbn [fhist].
+  replace (k <? r) with false by (symmetry; apply Nat.ltb_ge; lia). cbn [andb].
+  pose proof (Hix k ltac:(lia)). unfold swp, fpiv.
+  destruct (Nat.eqb_spec r k); [lia|]. destruct (Nat.eqb_spec r (nth k index 0 - 1)); [lia|]. reflexivity.
+Qed.
+
+Lemma fhist_final_length n m1 al index r :
+  (forall k, k < n -> k + 1 <= nth k index 0) -> r < n -> length (fhist n m1 al index n r) <= r.
+Proof.
+  intros Hix Hr. rewrite (fhist_settled n m1 al index r n) by (auto; lia). cbn [fhist].
+  rewrite Nat.ltb_irrefl. cbn [andb]. apply fhist_length_le.
+Qed.
+
+(* without exchanges: the identity permutation, and row r holds the multipliers of the stages r - min r m1 .. r-1 *)
+Lemma fperm_noswap index n k i :
+  (forall k, k < n -> nth k index 0 = k + 1) -> k <= n -> fperm index k i = i.
+Proof.
+  intros Hix. induction k as [|k IH]; intros Hk; [reflexivity|]. cbn [fperm].
+  unfold fpiv. rewrite Hix by lia. replace (k + 1 - 1) with k by lia.
+  unfold swp. destruct (Nat.eqb_spec i k) as [->|]; apply IH; lia.
+Qed.
+
+Lemma fhist_noswap_gen n m1 al index k r :
+  (forall k, k < n -> nth k index 0 = k + 1) -> k <= n -> r < n ->
+  fhist n m1 al index k r
+  = map (fun j => (mat_at al m1 j (r - j - 1), j)) (seq (r - m1) (Nat.min k r - (r - m1))).
+Proof.
+  intros Hix. induction k as [|k IH]; intros Hk Hr; [reflexivity|]. cbn [fhist].
+  unfold fpiv. rewrite Hix by lia. replace (k + 1 - 1) with k by lia.
+  assert (Es : swp k k r = r) by (unfold swp; destruct (Nat.eqb_spec r k); auto). rewrite Es.
+  rewrite IH by lia. unfold fwin.
+  destruct (Nat.ltb_spec k r) as [L|L]; cbn [andb].
+  - destruct (Nat.ltb_spec r (Nat.min (k + 1 + m1) n)) as [L2|L2].
+    + replace (Nat.min (S k) r - (r - m1)) with (S (Nat.min k r - (r - m1))) by lia.
+      rewrite seq_S, map_app. cbn [map]. now replace (r - m1 + (Nat.min k r - (r - m1))) with k by lia.
+    + now replace (Nat.min (S k) r - (r - m1)) with (Nat.min k r - (r - m1)) by lia.
+  - now replace (Nat.min (S k) r) with (Nat.min k r) by lia.
+Qed.
+
+Lemma fhist_noswap n m1 al index r :
+  (forall k, k < n -> nth k index 0 = k + 1) -> r < n ->
+  fhist n m1 al index n r
+  = map (fun j => (mat_at al m1 j (r - j - 1), j)) (seq (r - Nat.min r m1) (Nat.min r m1)).
+Proof.
+  intros Hix Hr. rewrite fhist_noswap_gen by (auto; lia).
+  replace (r - Nat.min r m1) with (r - m1) by lia.
+  now replace (Nat.min n r - (r - m1)) with (Nat.min r m1) by lia.
+Qed.
+
+Lemma fhist_final_tags n m1 al index r p :
+  (forall k, k < n -> k + 1 <= nth k index 0) -> r < n -> In p (fhist n m1 al index n r) -> snd p < r.
+Proof.
+  intros Hix Hr. rewrite (fhist_settled n m1 al index r n) by (auto; lia). cbn [fhist].
+  rewrite Nat.ltb_irrefl. cbn [andb]. apply fhist_tags.
+Qed.
+
+(* the composed exchanges are a permutation: distinct positions hold distinct entries of b *)
+Lemma swp_inj k p i i' : swp k p i = swp k p i' -> i = i'.
+Proof. intros H. rewrite <- (swp_invol k p i), <- (swp_invol k p i'). now rewrite H. Qed.
+
+Lemma fperm_inj index k i i' : fperm index k i = fperm index k i' -> i = i'.
+Proof.
+  revert i i'. induction k as [|k IH]; intros i i' H; [exact H|]. cbn [fperm] in H.
+  apply IH in H. now apply swp_inj in H.
+Qed.
+
 End BandTrace.
